@@ -102,6 +102,29 @@ CONFIGS = [dict(clustering=c, blobs=b, kernel=k, pool=p)
            for c in (False, True) for b in (False, True) for k in ("tpcn", "rwm") for p in (False, True)]
 
 
+# kinds of worker pool a configuration may carry: False (none), True (pool-like object with .map), "int" (an integer > 1:
+# the sampler itself spawns `multiprocess` workers for every likelihood batch), "mp" (a real multiprocess.Pool object)
+POOL_KIND_CONFIGS = [dict(clustering=False, blobs=False, kernel="rwm", pool="int"),
+                     dict(clustering=True, blobs=True, kernel="tpcn", pool="int"),
+                     dict(clustering=False, blobs=True, kernel="rwm", pool="mp")]
+_MP_POOL = []
+
+
+def _mk_pool(kind):
+    if not kind:
+        return None
+    if kind == "int":
+        return 2
+    if kind == "mp":
+        if not _MP_POOL:
+            import atexit
+            from multiprocess import Pool
+            _MP_POOL.append(Pool(2))
+            atexit.register(lambda: (_MP_POOL[0].terminate(), _MP_POOL[0].join()))
+        return _MP_POOL[0]
+    return ListPool()
+
+
 def mk_sampler(cfg, output_dir=None, label=None, like=None):
     from tempest import Sampler
     if like is None:
@@ -110,7 +133,7 @@ def mk_sampler(cfg, output_dir=None, label=None, like=None):
         else:
             like = lambda x: -0.5 * float(np.sum(x ** 2))  # noqa: E731
     kw = dict(n_particles=N_PART, clustering=cfg["clustering"], sample=cfg["kernel"],
-              blobs_dtype=("f8" if cfg["blobs"] else None), pool=(ListPool() if cfg["pool"] else None))
+              blobs_dtype=("f8" if cfg["blobs"] else None), pool=_mk_pool(cfg["pool"]))
     if output_dir is not None:
         kw.update(output_dir=output_dir, output_label=label)
     return Sampler(lambda u: 10.0 * u - 5.0, like, 2, **kw)
@@ -533,7 +556,7 @@ def run_case(cfg, k, k2, seed, n_total, which="all", n_total_resume=None):
                     rec["unrelated"] = f"{type(e2).__name__}: {e2}"
                 return rec
             n_iter = int(s.state.get_current("iter"))
-            rec.update(n_iter=n_iter, files=_files(out, "ps"), pool_ok=(s._core.config.pool is not None) == cfg["pool"])
+            rec.update(n_iter=n_iter, files=_files(out, "ps"), pool_ok=(s._core.config.pool is not None) == bool(cfg["pool"]))
             full = dump_state(s.state)
             rec["writer_post"] = _post(s, n_total)
             its, has_final, _ = rec["files"]
@@ -1317,10 +1340,38 @@ def suite_sm_crash(tier, drv):
     return c
 
 
+def suite_pool_kinds(tier, drv):
+    """'saving works in every configuration, including with a worker pool': every KIND of pool the constructor accepts
+    (integer > 1 -> workers spawned by the sampler itself, a real multiprocess.Pool, a pool-like object), saved MID-RUN
+    (after likelihood batches went through the pool) by save_state and by run(save_every=...), then loaded and resumed."""
+    c = Corr("worker-pool-kinds", "exact (canonical dumps; real multiprocess workers)")
+    rng = common.rng_for("C08.poolkinds")
+    cfgs = POOL_KIND_CONFIGS if tier != "quick" else [POOL_KIND_CONFIGS[0], POOL_KIND_CONFIGS[rng.choice([1, 2])], ]
+    for cfg in cfgs:
+        for k in ([1, 2] if tier == "quick" else [0, 1, 2, 3]):
+            seed = rng.randrange(2 ** 31)
+            key = dict(cfg=cfg, k=k, seed=seed)
+            c.case(key, k >= 1)
+            c.count(f"pool={cfg['pool']}")
+            msg = oracle_roundtrip(cfg, k, seed)
+            if msg:
+                c.disagree(input=key, impl=msg, model="save mid-run succeeds, pool re-attached, loads exactly (C08_pool_detach, C08_roundtrip)",
+                           kind="roundtrip", **key)
+    for cfg in cfgs[: (1 if tier == "quick" else 3)]:
+        k, k2, seed = 1, 2, rng.randrange(2 ** 31)
+        key = dict(cfg=cfg, save_every=k, resume_save_every=k2, seed=seed, n_total=64, n_total_resume=None)
+        c.case(key, True)
+        c.count(f"run_pool={cfg['pool']}")
+        msg = oracle_run(cfg, k, k2, seed, 64, which=(1, "final"))
+        if msg:
+            c.disagree(input=key, impl=msg, model="run(save_every) with a pool writes loadable checkpoints and resumes", kind="run", **key)
+    return c
+
+
 def correspond(tier):
     drv = common.Driver()
     out = []
-    for f in (suite_roundtrip, suite_runs, suite_protocol, suite_crash, suite_sm_roundtrip, suite_sm_crash):
+    for f in (suite_roundtrip, suite_runs, suite_protocol, suite_crash, suite_sm_roundtrip, suite_sm_crash, suite_pool_kinds):
         try:
             out.append(f(tier, drv))
         except common.LeanError:
